@@ -60,6 +60,9 @@ def applyKV (st : Stmt) (kv : String) : Option Stmt :=
   | ["host", x] => some { st with host := some (if x == "-" then "" else x) }
   | ["int", x] => x.toNat?.map fun v => { st with interval := v }
   | ["offs", x] => x.toNat?.map fun v => { st with offset := v }
+  -- a negative offset `time(i, -x)`: the same windows as the offset `i - x mod i` (the interval
+  -- comes first in the key list)
+  | ["noffs", x] => x.toNat?.map fun v => { st with offset := if st.interval = 0 then 0 else (st.interval - v % st.interval) % st.interval }
   | ["byhost", x] => some { st with byHost := x == "1" }
   | ["fill", x] => (parseFill x).map fun f => { st with fill := f }
   | ["desc", x] => some { st with desc := x == "1" }
